@@ -26,12 +26,12 @@ theorem replicate_succ_append {α} (n : Nat) (a : α) (l : List α) :
   | zero => rfl
   | succ n ih => simp only [List.replicate_succ, List.cons_append] at *; rw [ih]
 
-theorem rleDec_rleEnc (s : Bytes) : ∀ c, c ≤ 255 →
-    rleDec none (rleEnc c s) = List.replicate c 0 ++ s := by
+theorem rleDec_rleEncRef (s : Bytes) : ∀ c, c ≤ 255 →
+    rleDec none (rleEncRef c s) = List.replicate c 0 ++ s := by
   induction s with
   | nil =>
     intro c hc
-    simp only [rleEnc]
+    simp only [rleEncRef]
     split
     · rw [rleDec_zero_run]
       have : (UInt8.ofNat c).toNat = c := by simp [UInt8.toNat_ofNat']; omega
@@ -40,7 +40,7 @@ theorem rleDec_rleEnc (s : Bytes) : ∀ c, c ≤ 255 →
       subst this; simp [rleDec]
   | cons x rest ih =>
     intro c hc
-    simp only [rleEnc]
+    simp only [rleEncRef]
     by_cases hx : x = 0
     · subst hx
       simp only [if_true]
@@ -64,6 +64,48 @@ theorem rleDec_rleEnc (s : Bytes) : ∀ c, c ≤ 255 →
         simp only [Nat.lt_irrefl, if_false, List.nil_append]
         rw [rleDec_none_cons_ne x hx, ih 0 (by omega)]
         simp
+
+theorem byteOf_toNat (x : UInt8) : byteOf (x.toNat : Int) = x := by
+  simp [byteOf]
+
+/-- The loop body obtained from the source by symbolic execution is the readable one. -/
+theorem rleEnc_eq_ref (s : Bytes) : ∀ c, c ≤ 255 → rleEnc c s = rleEncRef c s := by
+  induction s with
+  | nil =>
+    intro c hc
+    simp only [rleEnc, rleEncRef, Facts.C38.rleFlushOut]
+    by_cases h : c > 0
+    · have : ((c : Int) > 0) := by omega
+      simp [h, this, byteOf]
+    · have : ¬ ((c : Int) > 0) := by omega
+      simp [h, this]
+  | cons x rest ih =>
+    intro c hc
+    have hx := x.toNat_lt
+    simp only [rleEnc, rleEncRef, Facts.C38.rleStepOut, Facts.C38.rleStepCount]
+    by_cases hx0 : x = 0
+    · subst hx0
+      by_cases h255 : c = 255
+      · subst h255
+        simp [byteOf, ih 1 (by omega)]
+      · have h1 : ¬ ((c : Int) = 255) := by omega
+        have h2 : (((c : Int) + 1) % 256).toNat = c + 1 := by omega
+        simp [h255, h1, h2, ih (c + 1) (by omega)]
+    · have hxn : ¬ (x.toNat = 0) := by
+        intro h
+        apply hx0
+        exact UInt8.toNat_inj.mp (by simpa using h)
+      by_cases hc0 : c > 0
+      · have : ((c : Int) > 0) := by omega
+        simp [hx0, hxn, hc0, this, byteOf_toNat, ih 0 (by omega)]
+        simp [byteOf]
+      · have hcz : c = 0 := by omega
+        subst hcz
+        simp [hx0, hxn, byteOf_toNat, ih 0 (by omega)]
+
+theorem rleDec_rleEnc (s : Bytes) (c : Nat) (hc : c ≤ 255) :
+    rleDec none (rleEnc c s) = List.replicate c 0 ++ s := by
+  rw [rleEnc_eq_ref s c hc]; exact rleDec_rleEncRef s c hc
 
 theorem rleEncWrap_zero_run (n : Nat) : ∀ c rest,
     rleEncWrap c (List.replicate n 0 ++ rest) = rleEncWrap ((c + n) % 256) rest
@@ -95,9 +137,11 @@ theorem pss_roundtrip (p : PSS) (hc : p.canon) (rest : Bytes) :
   have hcases : type = 0 ∨ type = 1 ∨ type = 2 ∨ type = 3 ∨ type = 4 ∨ type = 5 ∨ type = 6 ∨ type = 7 ∨ type = 8 ∨ type = 9 := by omega
   rcases hcases with rfl | rfl | rfl | rfl | rfl | rfl | rfl | rfl | rfl | rfl <;>
   · simp only [PSS.shape, PSS.mk.injEq, true_and] at hs
-    simp only [PSS.encode, PSS.decode, PSS.decodeTyped, PSS.decodeBody, readDialog, readStickerSet, readLocalVolume,
-      List.append_assoc, lastPSSType, Facts.C38.lastPSSType]
-    simp [rd32, rd64, h1, h2, h3, h4, h5, h6, h7, h8, h9, h10, bind, Except.bind, pure, Except.pure, hs]
+    simp only [PSS.encode, PSS.writeSteps, caseOf, Facts.C38.pssEncodeHead, Facts.C38.pssEncodeSwitch, PSS.get, putW,
+      PSS.decode, Facts.C38.pssDecode, List.append_assoc, List.append_nil, List.contains_cons, List.contains_nil, Option.getD]
+    simp [PSS.decodeProg, PSS.readSteps, PSS.writeSteps, PSS.get, putW, caseOf, Facts.C38.pssDecodeSwitch, rdW, PSS.set,
+      lastPSSType, Facts.C38.lastPSSType, rd32, rd64, h1, h2, h3, h4, h5, h6, h7, h8, h9, h10, bind, Except.bind, pure,
+      Except.pure, hs]
 
 theorem typeID_flags : ∀ t, t < 18 → ∀ w r : Bool,
     let x := t ||| (if w then 16777216 else 0) ||| (if r then 33554432 else 0)
@@ -109,13 +153,24 @@ theorem rdB' (v : Bytes) (h : v.length < 2 ^ 24) : rdBytes (putBytes v) = .ok (v
   have := rdB v [] h
   rwa [List.append_nil] at this
 
+/-- The case labels of the two `switch`es over the file type are the three photo types. -/
+theorem photoTypes_eq (t : Nat) :
+    Facts.C38.encPhotoTypes.contains t = isPhotoType t ∧ Facts.C38.decPhotoTypes.contains t = isPhotoType t := by
+  simp only [Facts.C38.encPhotoTypes, Facts.C38.decPhotoTypes, isPhotoType, Facts.C38.typeThumbnail,
+    Facts.C38.typeProfilePhoto, Facts.C38.typePhoto, List.contains_cons, List.contains_nil, Bool.or_false]
+  by_cases h0 : t = 0 <;> by_cases h1 : t = 1 <;> by_cases h2 : t = 2 <;> simp [h0, h1, h2]
+
 theorem body_roundtrip (f : FileID) (hc : f.canon) (sv : Nat) (hsv : f.url = [] → sv = 34) :
-    decodeLatestBody sv f.encodeLatest = .ok f := by
+    decodeProg sv Facts.C38.decLatest {} false false f.encodeLatest = .ok f := by
   obtain ⟨ht, hdc, hid, hah, href, hurl, hrest⟩ := hc
   obtain ⟨type, dc, id, accessHash, fileRef, url, pss⟩ := f
   simp only [lastType, Facts.C38.lastType] at ht
   simp only at ht hdc hid hah href hurl hrest hsv
   have hnt : ¬ 18 ≤ type := by omega
+  have hpe : type ∈ Facts.C38.encPhotoTypes ↔ isPhotoType type = true := by
+    rw [← (photoTypes_eq type).1]; simp
+  have hpd : type ∈ Facts.C38.decPhotoTypes ↔ isPhotoType type = true := by
+    rw [← (photoTypes_eq type).2]; simp
   by_cases hu : url = [] <;> by_cases hr : fileRef = []
   · subst hu; subst hr
     have hfl := typeID_flags type ht false false
@@ -124,15 +179,17 @@ theorem body_roundtrip (f : FileID) (hc : f.canon) (sv : Nat) (hsv : f.url = [] 
     have hsv' := hsv rfl
     subst hsv'
     simp only [ne_eq, not_true_eq_false, if_false] at hrest
-    simp only [FileID.encodeLatest, decodeLatestBody, webLocationFlag, fileReferenceFlag, Facts.C38.webLocationFlag,
-      Facts.C38.fileReferenceFlag, ne_eq, not_true_eq_false, if_false, Nat.or_zero, List.append_nil,
-      List.append_assoc, lastType, Facts.C38.lastType]
     by_cases hp : isPhotoType type = true
-    · simp only [hp, if_true] at hrest ⊢
-      simp [rd32, rd64, h32, hdc, hid, hah, hw, hrf, hnt, bind, Except.bind, decodeTail, hp, pss_roundtrip pss hrest, pure, Except.pure]
-    · simp only [hp] at hrest ⊢
+    · simp only [hp, if_true] at hrest
+      simp [FileID.encodeLatest, FileID.encodeProg, Facts.C38.encLatest, condOn, decodeProg, Facts.C38.decLatest,
+        webLocationFlag, fileReferenceFlag, Facts.C38.webLocationFlag, Facts.C38.fileReferenceFlag, lastType,
+        Facts.C38.lastType, hpe, hpd, hp, rd32, rd64, h32, hdc, hid, hah, hw, hrf, hnt, bind, Except.bind,
+        pss_roundtrip pss hrest, pure, Except.pure]
+    · simp only [hp] at hrest
       subst hrest
-      simp [rd32, rd64, h32, hdc, hid, hah, hw, hrf, hnt, bind, Except.bind, decodeTail, hp, pure, Except.pure]
+      simp [FileID.encodeLatest, FileID.encodeProg, Facts.C38.encLatest, condOn, decodeProg, Facts.C38.decLatest,
+        webLocationFlag, fileReferenceFlag, Facts.C38.webLocationFlag, Facts.C38.fileReferenceFlag, lastType,
+        Facts.C38.lastType, hpe, hpd, hp, rd32, rd64, h32, hdc, hid, hah, hw, hrf, hnt, bind, Except.bind, pure, Except.pure]
   · subst hu
     have hfl := typeID_flags type ht false true
     simp only [Bool.false_eq_true, if_false, if_true, Nat.or_zero, Nat.sub_zero, decide_eq_false_iff_not, decide_eq_true_eq] at hfl
@@ -140,34 +197,36 @@ theorem body_roundtrip (f : FileID) (hc : f.canon) (sv : Nat) (hsv : f.url = [] 
     have hsv' := hsv rfl
     subst hsv'
     simp only [ne_eq, not_true_eq_false, if_false] at hrest
-    simp only [FileID.encodeLatest, decodeLatestBody, webLocationFlag, fileReferenceFlag, Facts.C38.webLocationFlag,
-      Facts.C38.fileReferenceFlag, ne_eq, not_true_eq_false, if_false, hr, not_false_eq_true, if_true, Nat.or_zero, List.append_nil,
-      List.append_assoc, lastType, Facts.C38.lastType]
     by_cases hp : isPhotoType type = true
-    · simp only [hp, if_true] at hrest ⊢
-      simp [rd32, rd64, rdB, h32, hdc, hid, hah, href, hw, hrf, hsub, hnt, bind, Except.bind, decodeTail, hp, pss_roundtrip pss hrest, pure, Except.pure]
-    · simp only [hp] at hrest ⊢
+    · simp only [hp, if_true] at hrest
+      simp [FileID.encodeLatest, FileID.encodeProg, Facts.C38.encLatest, condOn, decodeProg, Facts.C38.decLatest,
+        webLocationFlag, fileReferenceFlag, Facts.C38.webLocationFlag, Facts.C38.fileReferenceFlag, lastType,
+        Facts.C38.lastType, hpe, hpd, hp, hr, rd32, rd64, rdB, h32, hdc, hid, hah, href, hw, hrf, hsub, hnt, bind,
+        Except.bind, pss_roundtrip pss hrest, pure, Except.pure]
+    · simp only [hp] at hrest
       subst hrest
-      simp [rd32, rd64, rdB, h32, hdc, hid, hah, href, hw, hrf, hsub, hnt, bind, Except.bind, decodeTail, hp, pure, Except.pure]
+      simp [FileID.encodeLatest, FileID.encodeProg, Facts.C38.encLatest, condOn, decodeProg, Facts.C38.decLatest,
+        webLocationFlag, fileReferenceFlag, Facts.C38.webLocationFlag, Facts.C38.fileReferenceFlag, lastType,
+        Facts.C38.lastType, hpe, hpd, hp, hr, rd32, rd64, rdB, h32, hdc, hid, hah, href, hw, hrf, hsub, hnt, bind,
+        Except.bind, pure, Except.pure]
   · subst hr
     have hfl := typeID_flags type ht true false
     simp only [Bool.false_eq_true, if_false, if_true, Nat.or_zero, Nat.sub_zero, decide_eq_false_iff_not, decide_eq_true_eq] at hfl
     obtain ⟨h32, hw, hrf, hsub⟩ := hfl
     simp only [ne_eq, hu, not_false_eq_true, if_true] at hrest
     obtain ⟨rfl, rfl, rfl⟩ := hrest
-    simp only [FileID.encodeLatest, decodeLatestBody, webLocationFlag, fileReferenceFlag, Facts.C38.webLocationFlag,
-      Facts.C38.fileReferenceFlag, ne_eq, not_true_eq_false, if_false, hu, not_false_eq_true, if_true, Nat.or_zero, List.append_nil,
-      List.append_assoc, lastType, Facts.C38.lastType]
-    simp [rd32, rdB', h32, hdc, hurl, hw, hrf, hsub, hnt, bind, Except.bind, decodeTail, pure, Except.pure]
+    simp [FileID.encodeLatest, FileID.encodeProg, Facts.C38.encLatest, condOn, decodeProg, Facts.C38.decLatest,
+      webLocationFlag, fileReferenceFlag, Facts.C38.webLocationFlag, Facts.C38.fileReferenceFlag, lastType,
+      Facts.C38.lastType, hu, rd32, rdB', h32, hdc, hurl, hw, hrf, hsub, hnt, bind, Except.bind, pure, Except.pure]
   · have hfl := typeID_flags type ht true true
     simp only [Bool.false_eq_true, if_false, if_true, Nat.or_zero, Nat.sub_zero, decide_eq_false_iff_not, decide_eq_true_eq] at hfl
     obtain ⟨h32, hw, hrf, hsub⟩ := hfl
     simp only [ne_eq, hu, not_false_eq_true, if_true] at hrest
     obtain ⟨rfl, rfl, rfl⟩ := hrest
-    simp only [FileID.encodeLatest, decodeLatestBody, webLocationFlag, fileReferenceFlag, Facts.C38.webLocationFlag,
-      Facts.C38.fileReferenceFlag, ne_eq, hu, hr, not_false_eq_true, if_true, List.append_nil,
-      List.append_assoc, lastType, Facts.C38.lastType]
-    simp [rd32, rdB, rdB', h32, hdc, hurl, href, hw, hrf, hsub, hnt, bind, Except.bind, decodeTail, pure, Except.pure]
+    simp [FileID.encodeLatest, FileID.encodeProg, Facts.C38.encLatest, condOn, decodeProg, Facts.C38.decLatest,
+      webLocationFlag, fileReferenceFlag, Facts.C38.webLocationFlag, Facts.C38.fileReferenceFlag, lastType,
+      Facts.C38.lastType, hu, hr, rd32, rdB, rdB', h32, hdc, hurl, href, hw, hrf, hsub, hnt, bind, Except.bind, pure,
+      Except.pure]
 
 theorem rleDecode_rleEncode (s : Bytes) : rleDecode (rleEncode s) = s := by
   unfold rleDecode rleEncode
@@ -175,12 +234,21 @@ theorem rleDecode_rleEncode (s : Bytes) : rleDecode (rleEncode s) = s := by
   simp
 
 theorem encodeLatest_length (f : FileID) : 4 ≤ f.encodeLatest.length := by
-  simp only [FileID.encodeLatest, List.length_append, putU32_length]
-  omega
+  simp [FileID.encodeLatest, FileID.encodeProg, Facts.C38.encLatest, condOn, putU32_length]
+
+theorem getLast_snoc (l : Bytes) (x : UInt8) : (l ++ [x]).getLast? = some x := by simp
 
 theorem encodeLatest_last (f : FileID) (hu : f.url = []) :
     f.encodeLatest.getLast? = some (UInt8.ofNat latestSubVersion) := by
-  simp [FileID.encodeLatest, hu]
+  by_cases hr : f.fileRef = [] <;> by_cases hp : f.type ∈ Facts.C38.encPhotoTypes
+  all_goals
+    simp only [FileID.encodeLatest, FileID.encodeProg, Facts.C38.encLatest, condOn, hu, hr, hp, ne_eq,
+      not_true_eq_false, not_false_eq_true, decide_true, decide_false, List.contains_eq_mem]
+    simp only [BEq.rfl, Nat.reduceBEq, Bool.and_true, Bool.and_false, Bool.or_false, Bool.false_or, Bool.true_or,
+      Bool.or_true, if_true, if_false, Bool.false_eq_true, Bool.not_true, Bool.not_false, Nat.reduceEqDiff,
+      hp, decide_true, decide_false]
+    simp only [List.append_nil, ← List.append_assoc]
+    exact getLast_snoc _ _
 
 theorem decodeLatest_roundtrip (f : FileID) (hc : f.canon) : decodeLatest f.encodeLatest = .ok f := by
   unfold decodeLatest
@@ -199,5 +267,88 @@ theorem decodeLatest_roundtrip (f : FileID) (hc : f.canon) : decodeLatest f.enco
     have hsv : sv = UInt8.ofNat latestSubVersion := Option.some.inj this
     rw [hsv]
     decide
+
+/-! ### The glue code never indexes out of range -/
+
+theorem idxP_last (b : Bytes) (h : 1 ≤ b.length) :
+    ∃ x, idxP b ((b.length : Int) - 1) = .ok x ∧ b.getLast? = some x := by
+  have hi : ¬ ((b.length : Int) - 1 < 0) := by omega
+  have hn : ((b.length : Int) - 1).toNat = b.length - 1 := by omega
+  have hlt : b.length - 1 < b.length := by omega
+  refine ⟨b[b.length - 1], ?_, ?_⟩
+  · simp only [idxP, hi, if_false, hn, List.getElem?_eq_getElem hlt]
+  · rw [List.getLast?_eq_getElem?, List.getElem?_eq_getElem hlt]
+
+theorem sliceToP_dropLast (b : Bytes) (h : 1 ≤ b.length) :
+    sliceToP b ((b.length : Int) - 1) = .ok b.dropLast := by
+  have hn : ((b.length : Int) - 1).toNat = b.length - 1 := by omega
+  have h1 : (0 : Int) ≤ (b.length : Int) - 1 ∧ ((b.length : Int) - 1).toNat ≤ b.length := by omega
+  unfold sliceToP
+  rw [if_pos h1, hn, List.dropLast_eq_take]
+
+theorem decodeLatestP_eq (b : Bytes) : decodeLatestP b = POut.ofExcept (decodeLatest b) := by
+  unfold decodeLatestP decodeLatest
+  by_cases h : b.length < 1
+  · have : b = [] := by cases b <;> simp_all
+    subst this
+    simp [POut.ofExcept]
+  · obtain ⟨x, hx, hl⟩ := idxP_last b (by omega)
+    simp only [h, if_false, hx, hl]
+
+theorem decodeRawP_eq (data : Bytes) : decodeRawP data = POut.ofExcept (decodeRaw data) := by
+  unfold decodeRawP decodeRaw
+  simp only
+  by_cases h : (rleDecode data).length < 2
+  · simp only [h, if_true, POut.ofExcept]
+  · obtain ⟨x, hx, hl⟩ := idxP_last (rleDecode data) (by omega)
+    simp only [h, if_false, hx, hl, sliceToP_dropLast (rleDecode data) (by omega), decodeLatestP_eq]
+    split
+    · rfl
+    · split <;> rfl
+
+/-! ### Constructors build canonical ids -/
+
+local macro "fdec" : tactic => `(tactic| (simp only [fromDocument, fromPhoto, fromChatPhoto, List.length_nil]; decide))
+
+def okDocType (t : Nat) : Prop := t < lastType ∧ isPhotoType t = false
+instance (t : Nat) : Decidable (okDocType t) := by unfold okDocType; infer_instance
+
+theorem docType_ok (attrs : List DocAttr) : ∀ t, okDocType t → okDocType (docType t attrs) := by
+  induction attrs with
+  | nil => intro t h; exact h
+  | cons a rest ih =>
+    intro t ht
+    unfold docType
+    apply ih
+    cases a with
+    | animated => simp only; decide
+    | sticker => simp only; decide
+    | video r => cases r <;> simp only <;> decide
+    | audio v => cases v <;> simp only <;> decide
+    | other => exact ht
+
+theorem fromDocument_canon (attrs : List DocAttr) (dc id ah : Nat) (ref : Bytes)
+    (h1 : dc < 2 ^ 32) (h2 : id < 2 ^ 64) (h3 : ah < 2 ^ 64) (h4 : ref.length < 2 ^ 24) :
+    (fromDocument attrs dc id ah ref).canon := by
+  have hok := docType_ok attrs Facts.C38.typeDocumentAsFile (by decide)
+  refine ⟨hok.1, h1, h2, h3, h4, by fdec, ?_⟩
+  simp only [fromDocument, ne_eq, not_true_eq_false, if_false, hok.2, Bool.false_eq_true]
+
+theorem fromPhoto_canon (thumb dc id ah : Nat) (ref : Bytes)
+    (h0 : thumb < 2 ^ 32) (h1 : dc < 2 ^ 32) (h2 : id < 2 ^ 64) (h3 : ah < 2 ^ 64) (h4 : ref.length < 2 ^ 24) :
+    (fromPhoto thumb dc id ah ref).canon := by
+  refine ⟨by fdec, h1, h2, h3, h4, by fdec, ?_⟩
+  simp only [fromPhoto, ne_eq, not_true_eq_false, if_false]
+  refine ⟨by fdec, by fdec, by fdec, by fdec, by fdec, h0, by fdec, by fdec, by fdec, by fdec, by fdec, ?_⟩
+  rfl
+
+theorem fromChatPhoto_canon (big : Bool) (peer ah dc pid : Nat)
+    (h0 : peer < 2 ^ 64) (h1 : ah < 2 ^ 64) (h2 : dc < 2 ^ 32) (h3 : pid < 2 ^ 64) :
+    (fromChatPhoto big peer ah dc pid).canon := by
+  refine ⟨by fdec, h2, h3, by fdec, by fdec, by fdec, ?_⟩
+  simp only [fromChatPhoto, ne_eq, not_true_eq_false, if_false]
+  cases big
+  · exact ⟨by fdec, by fdec, by fdec, by fdec, by fdec, by fdec, h0, h1, by fdec, by fdec, by fdec, rfl⟩
+  · exact ⟨by fdec, by fdec, by fdec, by fdec, by fdec, by fdec, h0, h1, by fdec, by fdec, by fdec, rfl⟩
 
 end TdModel.C38
